@@ -11,7 +11,15 @@ to all programs.  Tie C / search (this file): programs of with-blocks are execut
 and compared on the public queries on()/off()/value(..)/num_probe_vectors() before, inside and after
 every block.  I vs M validates the translation the theorems are about; I vs S is the property-level
 search that produces the replay program when a source change breaks scoping (the model, being a
-translation of the changed source, would faithfully reproduce the leak)."""
+translation of the changed source, would faithfully reproduce the leak).
+
+Besides with-blocks a program may contain
+  ("esc", b, body)   with warnings.catch_warnings(): warnings.simplefilter("error" if b else "ignore"); body
+  ("try", body)      try: body  except Exception: pass
+(model: PEsc / PTry).  `warnings.warn` in a settings class is a potential raise point: with warnings turned
+into errors the header of a with-statement (constructor, __enter__) may raise, and Python then runs NO
+__exit__ -- whatever the header wrote stays.  Every with-header that raises, for whatever reason, is checked
+directly: every query of the group answers afterwards as before the with-statement."""
 import fractions
 import importlib
 import inspect
@@ -20,6 +28,7 @@ import json
 import os
 import random
 import types
+import warnings
 
 import torch
 
@@ -174,6 +183,10 @@ def coq_prog(items):
             ts.append("PObserve")
         elif it[0] == "raise":
             ts.append("PRaise")
+        elif it[0] == "esc":
+            ts.append("(PEsc %s %s)" % ("true" if it[1] else "false", coq_prog(it[2])))
+        elif it[0] == "try":
+            ts.append("(PTry %s)" % coq_prog(it[1]))
         else:
             _, cid, args, body = it
             a = "; ".join("(%s, VK %s)" % (nm(p), coq_const(v)) for p, v in args)
@@ -199,6 +212,18 @@ def prog_text(items, ind=0):
             continue
         if it[0] == "raise":
             L.append(" " * ind + "raise Boom()")
+        elif it[0] == "esc":
+            L.append(" " * ind + "with warnings.catch_warnings():")
+            L.append(" " * (ind + 4) + "warnings.simplefilter(%r)" % ("error" if it[1] else "ignore"))
+            inner = prog_text(it[2], ind + 4)
+            if inner:
+                L.append(inner)
+        elif it[0] == "try":
+            L.append(" " * ind + "try:")
+            inner = prog_text(it[1], ind + 4)
+            L.append(inner if inner else " " * (ind + 4) + "pass")
+            L.append(" " * ind + "except Exception:")
+            L.append(" " * (ind + 4) + "pass")
         else:
             _, cid, args, body = it
             pre, nm = cid.split(".", 1)
@@ -376,13 +401,19 @@ def footprint(items):
             for c in footprint(it[3]):
                 if c not in fp:
                     fp.append(c)
+        elif it[0] in ("esc", "try"):
+            for c in footprint(it[-1]):
+                if c not in fp:
+                    fp.append(c)
     return fp
 
 
-def run_real(W, items, qs, extra_qs=()):
+def run_real(W, items, qs, extra_qs=(), info=None):
     """execute on the real classes.  Returns (outcome, [snapshot at every obs], final snapshot,
-    [bystander snapshot at every obs])"""
-    trace, by = [], []
+    [bystander snapshot at every obs]).  info (a dict, optional) receives
+      hdr   : per with-statement reached, in execution order: did its header (constructor / __enter__) raise
+      leaks : (class, args, query, before, after) for every query of qs that a raising header changed"""
+    trace, by, hdr, leaks = [], [], [], []
 
     def go(its):
         for it in its:
@@ -392,15 +423,37 @@ def run_real(W, items, qs, extra_qs=()):
                     by.append(W.snapshot(extra_qs))
             elif it[0] == "raise":
                 raise Boom()
+            elif it[0] == "esc":
+                with warnings.catch_warnings():
+                    warnings.simplefilter("error" if it[1] else "ignore")
+                    go(it[2])
+            elif it[0] == "try":
+                try:
+                    go(it[1])
+                except Exception:
+                    pass
             else:
                 _, cid, args, body = it
-                with W.real[cid](**{p: pyval(v) for p, v in args}):
-                    go(body)
+                before = W.snapshot(qs)
+                i = len(hdr)
+                hdr.append(True)
+                try:
+                    with W.real[cid](**{p: pyval(v) for p, v in args}):
+                        hdr[i] = False
+                        go(body)
+                except Exception:
+                    if hdr[i]:
+                        for q, x, y in zip(qs, before, W.snapshot(qs)):
+                            if not same(x, y):
+                                leaks.append((cid, args, q, x, y))
+                    raise
     try:
         go(items)
         o = 0
     except Exception:
         o = 1
+    if info is not None:
+        info["hdr"], info["leaks"] = hdr, leaks
     return o, trace, W.snapshot(qs), by
 
 
@@ -460,21 +513,36 @@ def spec_enter(W, cid, kw, vis):
     return new
 
 
-def run_spec(W, items, qs):
+def run_spec(W, items, qs, hdr=()):
+    """hdr: which with-headers raised on the real classes (execution order).  The property does not say WHICH
+    classes emit warnings; where warnings are errors a header that raised is taken as given -- what the property
+    requires then is that nothing has changed (the body is not run, the enclosing values stay visible)."""
     trace = []
+    hdr = iter(hdr)
 
-    def go(its, vis):
+    def go(its, vis, esc):
         for it in its:
             if it[0] == "obs":
                 trace.append([vis[q] for q in qs])
             elif it[0] == "raise":
                 raise Boom()
+            elif it[0] == "esc":
+                go(it[2], vis, bool(it[1]))
+            elif it[0] == "try":
+                try:
+                    go(it[1], vis, esc)
+                except (Boom, CtorError):
+                    pass
             else:
                 _, cid, args, body = it
-                go(body, spec_enter(W, cid, {p: pyval(v) for p, v in args}, vis))
+                h = next(hdr, False)
+                new = spec_enter(W, cid, {p: pyval(v) for p, v in args}, vis)
+                if h and esc:
+                    raise CtorError()
+                go(body, new, esc)
     vis0 = dict(W.default)
     try:
-        go(items, vis0)
+        go(items, vis0, False)
         o = 0
     except (Boom, CtorError):
         o = 1
@@ -543,7 +611,56 @@ def programs_for_group(labels, nmax, depth, rng=None, sample=None):
                 yield instantiate(f, lab, r)
 
 
-def generate(W, tier, rng, focus=()):
+def _has_raise(items):
+    return any(it[0] == "raise" for it in _flatten(items))
+
+
+def _is_variant(items):
+    return any(it[0] in ("esc", "try") for it in _flatten(items))
+
+
+def _replace_block(items, j, f):
+    """copy of items with the j-th with-block (pre-order) replaced by f(block)"""
+    cnt = [0]
+
+    def go(its):
+        out = []
+        for it in its:
+            if it[0] == "with":
+                k = cnt[0]
+                cnt[0] += 1
+                out.append(f(it) if k == j else ("with", it[1], it[2], go(it[3])))
+            elif it[0] == "esc":
+                out.append(("esc", it[1], go(it[2])))
+            elif it[0] == "try":
+                out.append(("try", go(it[1])))
+            else:
+                out.append(it)
+        return out
+    return go(items)
+
+
+def variants(items, deep=False):
+    """programs derived from a program of with-blocks that change the warning filter and / or catch the exception:
+      - warnings are errors around the whole program (and: warnings ignored, for 1-block programs);
+      - for every block B:  try: (warnings are errors: B) except: pass   -- a header that raises because of a
+        warning is caught inside the enclosing block, whose remaining observations must show ITS values;
+      - for every block B that contains a raise (all blocks when deep):  try: B except: pass;
+      - deep: warnings are errors around B only, exception not caught."""
+    blocks = list(_blocks(items))
+    out = [[("esc", True, items)]]
+    if len(blocks) == 1 or deep:
+        out.append([("esc", False, items)])
+    for j, b in enumerate(blocks):
+        out.append(_replace_block(items, j, lambda x: ("try", [("esc", True, [x])])))
+        if deep or len(blocks) == 1 or _has_raise(b[3]):
+            out.append(_replace_block(items, j, lambda x: ("try", [x])))
+        if deep and j > 0:
+            out.append(_replace_block(items, j, lambda x: ("esc", True, [x])))
+    return out
+
+
+def generate(W, tier, rng, focus=(), warners=()):
     """list of (group name, queries, program).  Interference groups: every class on its own (same-class
     nesting), fast_computations with its three flags, linalg_dtypes with its two contexts."""
     thorough = tier == "thorough"
@@ -587,11 +704,26 @@ def generate(W, tier, rng, focus=()):
                 for b in core:
                     for lab in ([(name, a), (name, b)], [(name, b), (name, a)]):
                         progs.append((name, qs, instantiate([[[]]], lab, None)))
+    # warning filter / caught exceptions: variants of every program with <= 2 blocks (<= 3 blocks for the classes
+    # whose translated source contains a warnings.warn)
+    # (other classes, quick tier: every 1-block program and a seeded sample of 60 of the 2-block programs per class)
+    by_group = {}
+    for name, qs, p in progs:
+        by_group.setdefault(name, []).append((qs, p, sum(1 for _ in _blocks(p))))
+    for name, lst in by_group.items():
+        deep = name in warners or any(m in warners for m in COMPOSITES.get(name, []))
+        if deep:
+            base = [(qs, p) for qs, p, nb in lst if nb <= 3]
+        else:
+            two = [(qs, p) for qs, p, nb in lst if nb == 2]
+            base = [(qs, p) for qs, p, nb in lst if nb == 1] + (two if thorough or len(two) <= 60 else rng.sample(two, 60))
+        for qs, p in base:
+            progs += [(name, qs, v) for v in variants(p, deep=name in warners)]
     # pairs across groups: nested both ways and in sequence, exception inside / after the inner block
     reps = {}
     for c in W.usable:
         reps.setdefault((W.kind[c], c.split(".")[0]), c)
-    hot = sorted(set(W.special) | set(reps.values()) | set(COMPOSITES) | set(focus))
+    hot = sorted(set(W.special) | set(reps.values()) | set(COMPOSITES) | set(focus) | set(warners))
     pairs = set()
     for a in W.usable:
         for b in W.usable:
@@ -609,7 +741,14 @@ def generate(W, tier, rng, focus=()):
                 if not thorough and a not in hot and b not in hot:
                     rs = [None, rng.choice(rs[1:])] if len(rs) > 1 else rs
                 for r in rs:
-                    progs.append(("pair", qs, instantiate(f, lab, r)))
+                    p = instantiate(f, lab, r)
+                    progs.append(("pair", qs, p))
+                    if a in warners or b in warners:
+                        # warnings are errors around everything / around the second block only (caught)
+                        progs.append(("pair", qs, [("esc", True, p)]))
+                        progs.append(("pair", qs, _replace_block(p, 1, lambda x: ("try", [("esc", True, [x])]))))
+                    elif r is None and len(f) == 1:
+                        progs.append(("pair", qs, _replace_block(p, 1, lambda x: ("try", [("esc", True, [x])]))))
     return progs
 
 
@@ -618,6 +757,8 @@ def _blocks(items):
         if it[0] == "with":
             yield it
             yield from _blocks(it[3])
+        elif it[0] in ("esc", "try"):
+            yield from _blocks(it[-1])
 
 
 def _closure(c):
@@ -730,6 +871,8 @@ def model_aux(want_witness):
                     cc, i = _rd_str(a, i + 2)
                     aa, i = _rd_str(a, i)
                     var = "%s.%s at %s" % (cc, aa, "exit" if t else "entry")
+                    if cc == "warnings":
+                        var = "the warning issued at %s is turned into an exception (filter at %s)" % (aa, "exit" if t else "entry")
                 if a[i] == 0:
                     pred, i = "omitted", i + 1
                 elif a[i] == 1:
@@ -784,7 +927,8 @@ def check_program(W, out, name, qs, items, model, by_qs, counters, use_spec=True
     semantics; direct property checks on every other query.  Returns True if something failed."""
     fp = footprint(items)
     W.reset(fp)
-    o, trace, final, by = run_real(W, items, qs, by_qs)
+    info = {}
+    o, trace, final, by = run_real(W, items, qs, by_qs, info)
     full = W.snapshot(W.all_queries)
     impl = flat(o, trace, final)
     case = dict(group=name, program=items, queries=[list(q) for q in qs])
@@ -796,6 +940,18 @@ def check_program(W, out, name, qs, items, model, by_qs, counters, use_spec=True
     counters[nb] = counters.get(nb, 0) + 1
     if any(it[0] == "raise" for it in _flatten(items)):
         counters["with_exception"] = counters.get("with_exception", 0) + 1
+    for kind, lab in (("esc", "warning_filter_changed"), ("try", "exception_caught")):
+        if any(it[0] == kind for it in _flatten(items)):
+            counters[lab] = counters.get(lab, 0) + 1
+    if any(info["hdr"]):
+        counters["header_raised"] = counters.get("header_raised", 0) + 1
+    # failed header (direct): an exception escaping a with-statement header leaves every query unchanged
+    for cid, args, q, x, y in info["leaks"][:1]:
+        bad = True
+        out.fail("header:%s" % qname(q),
+                 "the header of `with %s(%s)` raised (no __exit__ runs) and left %s changed: %s before the with-statement, %s after\n%s"
+                 % (cid, ", ".join("%s=%r" % (p, pyval(v)) for p, v in args), qname(q), show(enc(x)), show(enc(y)), prog_text(items)),
+                 case, impl=show(enc(y)), model=show(enc(x)))
     # scoped (direct): after the program every public query answers as before it
     for q, v in zip(W.all_queries, full):
         if not same(v, W.default[q]):
@@ -816,7 +972,7 @@ def check_program(W, out, name, qs, items, model, by_qs, counters, use_spec=True
     # property as reference semantics: innermost block wins, restored on exit
     if use_spec:
         try:
-            so, st, sf = run_spec(W, items, qs)
+            so, st, sf = run_spec(W, items, qs, info["hdr"])
             spec = flat(so, st, sf)
             if spec != impl:
                 bad = True
@@ -841,8 +997,8 @@ def check_program(W, out, name, qs, items, model, by_qs, counters, use_spec=True
 def _flatten(items):
     for it in items:
         yield it
-        if it[0] == "with":
-            yield from _flatten(it[3])
+        if it[0] in ("with", "esc", "try"):
+            yield from _flatten(it[-1])
 
 
 # --------------------------------------------------------------------------- run
@@ -859,7 +1015,12 @@ def run(out, ctx):
                 "argument choices per class, an exception raised at every in-body block boundary (and none); every "
                 "argument value {omitted, default, two others, None, invalid, unknown keyword} alone and nested in/around "
                 "every core choice; composites with their members; pairs of classes across groups nested both ways and in "
-                "sequence.  Observed: on()/off()/value(dtype)/num_probe_vectors() before, inside and after every block. "
+                "sequence.  Every 1-block program and a sample of the 2-block programs (every program with <= 3 blocks for "
+                "classes whose source calls warnings.warn) also "
+                "with warnings turned into errors (around the whole program, and around each single block with the "
+                "exception caught inside the enclosing block) and with try/except around each block; every with-header "
+                "that raises is checked to leave all queries unchanged.  "
+                "Observed: on()/off()/value(dtype)/num_probe_vectors() before, inside and after every block. "
                 "Non-trivial = some observation inside differs from the default.")
     out.exhaustive = True
     out.extra["exhaustive_bound"] = ("per class: all programs with <= %d blocks, depth <= 3, 3 argument choices, every raise "
@@ -919,7 +1080,15 @@ def run(out, ctx):
         undocumented = [c for c in W.usable if c not in seen and c not in COMPOSITES]
         out.extra["classes_without_documented_default"] = undocumented
     # ---- programs
-    progs = generate(W, tier, rng, focus=focus)
+    warners = []
+    if model_ok:
+        for site in tbl.get("warn_sites", []):
+            wc = site.rsplit(".", 1)[0]
+            warners += [c for c in W.usable if c == wc or (c in W.real and wc in W.real and issubclass(W.real[c], W.real[wc]))]
+    warners = sorted(set(warners))
+    out.extra["classes_with_warnings_warn"] = warners
+    progs = generate(W, tier, rng, focus=focus, warners=warners)
+    out.extra["programs_with_filter_or_try"] = sum(1 for _, _, p in progs if _is_variant(p))
     out.extra["programs"] = len(progs)
     out.extra["usable_classes"] = len(W.usable)
     out.extra["special_classes"] = W.special
@@ -933,15 +1102,17 @@ def run(out, ctx):
         buckets = {}
         for i, (name, qs, p) in enumerate(progs):
             nb = sum(1 for _ in _blocks(p))
-            buckets.setdefault((name, min(nb, 3)), []).append(i)
+            buckets.setdefault((name, min(nb, 3), _is_variant(p)), []).append(i)
         sel = []
-        for (name, nb), idx in sorted(buckets.items()):
+        for (name, nb, var), idx in sorted(buckets.items()):
             if name == "pair":
-                k = 1200 * scale
+                k = (400 if var else 1200) * scale
             else:
                 k = {1: len(idx), 2: 40 * scale, 3: 25 * scale}[nb]
                 if name in focus:
                     k *= 4
+                if var and name in warners:
+                    k = max(k, 400 * scale)
             sel += idx if len(idx) <= k else rm.sample(idx, k)
         sel.sort()
         out.extra["programs_on_model"] = len(sel)
@@ -1010,7 +1181,17 @@ def replay(path):
         return 1
 
     def tup(its):
-        return [tuple(it[:2]) + ([tuple(a) for a in it[2]], tup(it[3])) if it[0] == "with" else tuple(it) for it in its]
+        out = []
+        for it in its:
+            if it[0] == "with":
+                out.append(tuple(it[:2]) + ([tuple(a) for a in it[2]], tup(it[3])))
+            elif it[0] == "esc":
+                out.append(("esc", it[1], tup(it[2])))
+            elif it[0] == "try":
+                out.append(("try", tup(it[1])))
+            else:
+                out.append(tuple(it))
+        return out
     items = tup(case["program"])
     qs = [(q[0], q[1], tuple(q[2])) for q in case["queries"]]
     print(prog_text(items))
@@ -1023,12 +1204,17 @@ def replay(path):
         print("model unavailable:", str(e)[-300:])
     out = C.Outcome("C20", "quick", 0)
     W.reset(all_classes=True)
-    o, trace, final, _ = run_real(W, items, qs)
+    info = {}
+    o, trace, final, _ = run_real(W, items, qs, (), info)
     W.reset(all_classes=True)
     print("queries      :", [qname(q) for q in qs])
+    if any(info["hdr"]):
+        print("with-headers that raised (execution order):", info["hdr"])
+    for cid, args, q, x, y in info["leaks"]:
+        print("header of %s raised and changed %s: %s -> %s" % (cid, qname(q), show(enc(x)), show(enc(y))))
     print("impl  outcome:", o, " observations:", [[show(enc(v)) for v in s] for s in trace], " after:", [show(enc(v)) for v in final])
     try:
-        so, st, sf = run_spec(W, items, qs)
+        so, st, sf = run_spec(W, items, qs, info["hdr"])
         print("prop. outcome:", so, " observations:", [[show(enc(v)) for v in s] for s in st], " after:", [show(enc(v)) for v in sf])
     except NoSpec:
         print("prop.: no reference semantics for this class")
